@@ -64,6 +64,7 @@ def plan(tier, seed):
         items.append({"kind": "concurrent_sweep", "pair": pi, "step": 2 if tier == "quick" else 1,
                       "exhaustive": "two connections at once: the thread with default options pre-empted at every traced line of its connect() "
                                     "in favour of a thread that relaxes a check (4 option pairs)" if tier != "quick" else None})
+    items.append({"kind": "none_values", "exhaustive": "unset sslopt keys given as None x cert_reqs x anchors x certificate x name"})
     items.append({"kind": "sslver", "exhaustive": "ssl_version {PROTOCOL_TLS, TLSv1_2, TLS_CLIENT} x certificate x name x cert_reqs x check_hostname x anchors"})
     items.append({"kind": "sysstore", "exhaustive": "system trust store holding the sim CA x certificate x name x cert_reqs x check_hostname x {no anchor option, foreign CA file}"})
     items.append({"kind": "concurrent_pairs", "exhaustive": None})
@@ -94,6 +95,9 @@ def expand(item, seed):
             if proxy and (host not in ("good.sim.test", "other.sim.test") or ea != "none"):
                 continue
             yield _sc(cert=cert, cert_reqs=cr, check_hostname=ch, opt_anchor=oa, env_anchor=ea, host=host, proxy=proxy)
+    elif k == "none_values":
+        for cert, cr, oa, host in itertools.product(CERT_ISSUER, (None, "NONE", "REQUIRED"), ("none", "ca_file", "ca_dir"), HOSTS):
+            yield _sc(cert=cert, cert_reqs=cr, opt_anchor=oa, host=host, none_values=True)
     elif k == "concurrent_pairs":
         # a connection with default options next to one that relaxes a check, made at the same time by two threads
         relaxed = [dict(check_hostname=False), dict(cert_reqs="NONE"), dict(check_hostname=False, opt_anchor="ca_file"),
@@ -155,6 +159,8 @@ def _gen_single(rng):
         sc["env_anchor"] = "none"
     if rng.random() < 0.25:
         sc["server_hostname"] = rng.choice(("good.sim.test", "other.sim.test", "a.wild.sim.test"))
+    if rng.random() < 0.15:
+        sc["none_values"] = True
     if rng.random() < 0.15:
         sc["context"] = rng.choice(("default_ca", "default_sys", "noverify", "nohost_ca"))
     elif rng.random() < 0.3:
@@ -453,6 +459,11 @@ def _run_one(sc, shared, index=0):
         sslopt["ca_certs" if ANCHORS[oa][0] == "file" else "ca_cert_path"] = simtls.cert(ANCHORS[oa][1])
     if sh is not None:
         sslopt["server_hostname"] = sh
+    if sc.get("none_values"):
+        # a caller that forwards "not set" as None: means the same as leaving the key out
+        for k_ in ("check_hostname", "ca_certs", "ca_cert_path", "server_hostname"):
+            sslopt.setdefault(k_, None)
+        res.probes["unset_options_given_as_None"] = 1
     if sslver is not None:
         import warnings
         with warnings.catch_warnings():
